@@ -30,7 +30,7 @@ without reference to what the generators draw). Wave 4 ({waves.get('4',0)} chang
 purpose and is marked as such: those agents were additionally told, in prose, which
 configurations, shapes, sizes and fault kinds the generators draw and were asked for changes such
 a checker would still miss - they are adversarial to the machinery, not independent of it. Wave 5
-({waves.get('5',0)} changes) and waves 6 to 11 ({waves.get('6',0)}+{waves.get('7',0)}+{waves.get('8',0)}+{waves.get('9',0)}+{waves.get('10',0)}+{waves.get('11',0)} changes) went back to the property text alone (plus the list of earlier
+({waves.get('5',0)} changes) and waves 6 to 12 ({waves.get('6',0)}+{waves.get('7',0)}+{waves.get('8',0)}+{waves.get('9',0)}+{waves.get('10',0)}+{waves.get('11',0)}+{waves.get('12',0)} changes) went back to the property text alone (plus the list of earlier
 changes to avoid).
 "yes" = caught by the quick tier of the machinery as it was when the change arrived; "after
 strengthening" = first missed, then caught after the generator or oracle was extended (the last
@@ -64,7 +64,14 @@ and three generator gaps (repositories built by the public factory, windows of a
 stop-loss percentages of 1 and more); wave 11 one more seam gap (a goroutine that loops without
 ever blocking gave no verdict: loops are counted now) and size classes throughout (documents,
 histories, backlogs and helper inputs longer than any internal buffer), compounds built by the
-registry functions, a failing JSON sink.
+registry functions, a failing JSON sink; wave 12 one oracle gap (for base strategies "action i is
+the recommendation for snapshot i" was judged on counts and leading Holds only: rule models of 31
+strategy types now), two sources the sync check never used (the Tiingo client over a simulated
+server with histories of more than a megabyte; repositories built by the factory, file-system
+sources), the name of the directory a case works in, and history/value classes (a codec that
+writes after reading a permuted header, strings that look like escape sequences, explicit lists
+naming only unknown assets, decorated strategies in a backtest, a stochastic window other than
+the RSI period).
 
 | seeded change | wave | what it does | needs | caught at once? | check and verdict |
 |---|---|---|---|---|---|
